@@ -17,7 +17,10 @@ def evaluate(name):
     if meta.get("confirmed") and (not only or name in only or meta["property"] in only):
         scratch = tempfile.mkdtemp(prefix="reeval-")
         subprocess.run("rsync -a --exclude target --exclude .git /repo/ %s/" % scratch, shell=True, check=True)
-        subprocess.run("cd %s && patch -p1 -s < %s/patch.diff" % (scratch, d), shell=True, check=True)
+        if subprocess.run("cd %s && patch -p1 -s < %s/patch.diff" % (scratch, d), shell=True).returncode != 0:
+            shutil.rmtree(scratch, ignore_errors=True)
+            print(name, "PATCH DOES NOT APPLY to the current tree (port it; keep the original as patch.as_submitted.diff)", flush=True)
+            return meta
         fired = {}
         try:
             for c in man["checks"]:
